@@ -319,7 +319,7 @@ def dotted(node: ast.AST) -> Optional[str]:
 
 _LOG_RECEIVERS = ("logging", "logger", "log", "LOGGER", "_logger", "warnings")
 _LOG_METHODS = {"debug", "info", "warning", "warn", "error", "critical", "exception", "log"}
-_PURE_CALLS = {"len", "str", "repr", "int", "float", "round", "os.path.basename", "time.time", "type"}
+_PURE_CALLS = {"len", "str", "repr", "int", "float", "round", "os.path.basename", "time.time", "time.perf_counter", "time.monotonic", "time.process_time", "type"}
 
 
 def _pure_log_arg(e: ast.AST) -> bool:
@@ -572,7 +572,9 @@ def _propagate_module_constants(tree: ast.Module) -> int:
     def literal(v):
         if isinstance(v, ast.Constant) and (v.value is None or isinstance(v.value, (int, float, str, bool))):
             return True
-        return isinstance(v, ast.UnaryOp) and isinstance(v.op, ast.USub) and isinstance(v.operand, ast.Constant) and isinstance(v.operand.value, (int, float))
+        if isinstance(v, ast.UnaryOp) and isinstance(v.op, ast.USub) and isinstance(v.operand, ast.Constant) and isinstance(v.operand.value, (int, float)):
+            return True
+        return isinstance(v, ast.Tuple) and bool(v.elts) and all(literal(e) for e in v.elts)        # a tuple of literals is as immutable as they are
     binds: Dict[str, List[ast.AST]] = {}
     for s in tree.body:
         for n in ast.walk(s) if not isinstance(s, (ast.FunctionDef, ast.AsyncFunctionDef, ast.ClassDef)) else []:
@@ -1437,6 +1439,7 @@ def _expand_row_stores(tree: ast.AST):
     import copy as _copy
     for fn in [n for n in ast.walk(tree) if isinstance(n, (ast.FunctionDef, ast.AsyncFunctionDef))]:
         shapes: Dict[str, Tuple[int, int]] = {}
+        dtypes: Dict[str, Optional[str]] = {}
         nstores: Dict[str, int] = {}
         for n in ast.walk(fn):
             if isinstance(n, ast.Name) and isinstance(n.ctx, (ast.Store, ast.Del)):
@@ -1447,6 +1450,7 @@ def _expand_row_stores(tree: ast.AST):
                     isinstance(n.value.args[0], ast.Tuple) and n.value.args[0].elts and isinstance(n.value.args[0].elts[-1], ast.Constant) and \
                     type(n.value.args[0].elts[-1].value) is int and nstores.get(n.targets[0].id) == 1:
                 shapes[n.targets[0].id] = (len(n.value.args[0].elts), n.value.args[0].elts[-1].value)
+                dtypes[n.targets[0].id] = next((ast.unparse(k.value) for k in n.value.keywords if k.arg == "dtype"), None)
         if not shapes:
             continue
         for node in ast.walk(fn):
@@ -1461,6 +1465,11 @@ def _expand_row_stores(tree: ast.AST):
                         ndim, K = shapes[t.value.id]
                         idx = list(t.slice.elts) if isinstance(t.slice, ast.Tuple) else [t.slice]
                         v = st.value
+                        # `np.array([e0, ..., eK-1], dtype=D)` with D the dtype of A itself: each element is converted to D once either way
+                        if isinstance(v, ast.Call) and dotted(v.func) in ("np.array", "np.asarray", "numpy.array", "numpy.asarray") and len(v.args) == 1 and \
+                                isinstance(v.args[0], (ast.List, ast.Tuple)) and all(k.arg == "dtype" for k in v.keywords) and \
+                                (not v.keywords or ast.unparse(v.keywords[0].value) == dtypes.get(t.value.id)):
+                            v = ast.copy_location(ast.Tuple(elts=list(v.args[0].elts), ctx=ast.Load()), v)
                         number = isinstance(v, ast.Constant) and type(v.value) in (int, float) or \
                             (isinstance(v, ast.UnaryOp) and isinstance(v.op, ast.USub) and isinstance(v.operand, ast.Constant) and type(v.operand.value) in (int, float))
                         plain_idx = all(isinstance(i_, (ast.Name, ast.Constant)) and not isinstance(getattr(i_, "value", 0), (str, type(None), type(Ellipsis))) for i_ in idx)
@@ -1593,6 +1602,80 @@ def _lower_match(tree: ast.AST):
                         cur = nxt
                     out.extend(pre + [top])
                 setattr(node, fld, out)
+    ast.fix_missing_locations(tree)
+
+
+def _partial_jobs_to_submit_args(tree: ast.AST, sigs: Dict[str, List[str]]):
+    """`J = partial(f, a, k=v)` (functools.partial; J a local bound once, read only as the callable of `X.submit(J, b)` calls; f, a, v plain reads of
+    names that are not rebound afterwards): the executor calls `J(b)`, i.e. `f(a, b, k=v)` - the submit is written `X.submit(f, a, b, k=v)` and the
+    binding dropped.  Keywords that name the next positional parameters of f (a function the package defines once) take their positional slots."""
+    if not isinstance(tree, ast.Module):
+        return
+    spell = set()
+    for s in tree.body:
+        if isinstance(s, ast.ImportFrom) and s.module == "functools" and s.level == 0:
+            spell |= {al.asname or al.name for al in s.names if al.name == "partial"}
+        elif isinstance(s, ast.Import):
+            spell |= {f"{al.asname or al.name}.partial" for al in s.names if al.name == "functools"}
+    if not spell:
+        return
+    import copy as _copy
+    for fn in [n for n in ast.walk(tree) if isinstance(n, (ast.FunctionDef, ast.AsyncFunctionDef))]:
+        stores: Dict[str, int] = {}
+        for n in ast.walk(fn):
+            if isinstance(n, ast.Name) and isinstance(n.ctx, (ast.Store, ast.Del)):
+                stores[n.id] = stores.get(n.id, 0) + 1
+        a_ = fn.args
+        params = {x.arg for x in a_.args + a_.kwonlyargs + a_.posonlyargs}
+        for node in ast.walk(fn):
+            for fld in ("body", "orelse", "finalbody"):
+                blk = getattr(node, fld, None)
+                if not isinstance(blk, list) or not blk or not isinstance(blk[0], ast.stmt):
+                    continue
+                for st in list(blk):
+                    if not (isinstance(st, ast.Assign) and len(st.targets) == 1 and isinstance(st.targets[0], ast.Name) and isinstance(st.value, ast.Call) and
+                            dotted(st.value.func) in spell and st.value.args and getattr(st, "ann", None) is None):
+                        continue
+                    J, pc = st.targets[0].id, st.value
+                    if stores.get(J) != 1 or any(isinstance(a, ast.Starred) for a in pc.args) or any(k.arg is None for k in pc.keywords):
+                        continue
+                    parts = list(pc.args) + [k.value for k in pc.keywords]
+
+                    def stable(e, st=st):
+                        # a plain read whose root name is not bound again once the partial has been made: every store to it lies before this
+                        # statement, and no loop holds both this statement and such a store
+                        x = e
+                        while isinstance(x, ast.Attribute):
+                            x = x.value
+                        if isinstance(e, ast.Constant):
+                            return True
+                        if not isinstance(x, ast.Name):
+                            return False
+                        here = (getattr(st, "lineno", 0), getattr(st, "col_offset", 0))
+                        sts = [n for n in ast.walk(fn) if isinstance(n, ast.Name) and n.id == x.id and isinstance(n.ctx, (ast.Store, ast.Del))]
+                        if any((getattr(n, "lineno", 10 ** 9), getattr(n, "col_offset", 0)) >= here for n in sts):
+                            return False
+                        for L in ast.walk(fn):
+                            if isinstance(L, (ast.For, ast.While)) and any(y is st for y in ast.walk(L)) and any(y is n for n in sts for y in ast.walk(L)):
+                                return False
+                        return True
+                    if not all(stable(e) for e in parts):
+                        continue
+                    uses = [x for x in ast.walk(fn) if isinstance(x, ast.Name) and x.id == J and isinstance(x.ctx, ast.Load)]
+                    subs = [c for c in ast.walk(fn) if isinstance(c, ast.Call) and isinstance(c.func, ast.Attribute) and c.func.attr == "submit" and c.args and
+                            isinstance(c.args[0], ast.Name) and c.args[0].id == J and not any(isinstance(a, ast.Starred) for a in c.args)]
+                    if not subs or len(subs) != len(uses) or any(c.keywords for c in subs):
+                        continue
+                    for c in subs:
+                        c.args = [_copy.deepcopy(a) for a in pc.args] + list(c.args[1:])
+                        c.keywords = [_copy.deepcopy(k) for k in pc.keywords]
+                        fname = c.args[0].id if isinstance(c.args[0], ast.Name) else None
+                        ps = sigs.get(fname) if fname else None
+                        while ps and c.keywords and len(c.args) - 1 < len(ps) and c.keywords[0].arg == ps[len(c.args) - 1]:
+                            c.args.append(c.keywords.pop(0).value)
+                    blk.remove(st)
+                    if not blk:
+                        blk.append(ast.copy_location(ast.Pass(), st))
     ast.fix_missing_locations(tree)
 
 
@@ -2483,6 +2566,7 @@ def normalise_tree(tree: ast.AST, computed: Set[str] = frozenset(), records: Opt
     _mapped_generators(tree)
     _enumerate_start_to_zero(tree)
     _chained_generators(tree)
+    _partial_jobs_to_submit_args(tree, signatures or {})
     if signatures:
         _keywords_to_positional(tree, signatures)
     _flag_loops_to_for_else(tree)
